@@ -925,6 +925,21 @@ pub(crate) fn get_amd_ordering<T: FloatT>(
     (perm, iperm, info)
 }
 
+// read-only accessor for the verification harness
+#[cfg(clarabel_verif)]
+impl<T> QDLDLFactorisation<T>
+where
+    T: FloatT,
+{
+    /// (values of the permuted matrix that is factored, map from input entries into it)
+    pub fn verif_internal_copy(&self) -> (Vec<T>, Vec<usize>) {
+        (
+            self.workspace.triuA.nzval.clone(),
+            self.workspace.AtoPAPt.clone(),
+        )
+    }
+}
+
 //configure tests of internals
 #[path = "test.rs"]
 #[cfg(test)]
